@@ -307,12 +307,46 @@ fn exhaustive(ctx: &RunCtx, max_tokens: usize) -> (Stats, Option<Failure>) {
 
 const WIDE: [&str; 16] = ["/", ".", "..", "...", "a", "b.c", "é", " ", "\\", "e\u{301}", "😀", "\0", "a b", "-", "//", "./"];
 
+/// lengths around the sizes at which implementations tend to switch behaviour (buffers, OS limits)
+const LEN_EDGES: [usize; 10] = [31, 64, 128, 255, 256, 260, 512, 1024, 4096, 65536];
+
 fn wide_string() -> impl Strategy<Value = String> {
     prop_oneof![
-        4 => proptest::collection::vec(0usize..WIDE.len(), 0..64).prop_map(|v| v.into_iter().map(|i| WIDE[i]).collect::<String>()),
-        1 => any::<String>(),
-        1 => "[/.a-c]{0,12}",
+        16 => proptest::collection::vec(0usize..WIDE.len(), 0..64).prop_map(|v| v.into_iter().map(|i| WIDE[i]).collect::<String>()),
+        4 => any::<String>(),
+        4 => "[/.a-c]{0,12}",
+        // long arguments: many tokens ...
+        2 => proptest::collection::vec(0usize..WIDE.len(), 64..700).prop_map(|v| v.into_iter().map(|i| WIDE[i]).collect::<String>()),
+        // ... or a filler run whose byte length sits at a size edge (multi-byte fillers put a
+        // scalar across the edge), between a generated head and tail
+        2 => (proptest::collection::vec(0usize..WIDE.len(), 0..4), 0usize..6, 0usize..LEN_EDGES.len(), 0usize..8, proptest::collection::vec(0usize..WIDE.len(), 0..4)).prop_map(|(head, filler, edge, back, tail)| {
+            let fill = ["a", "é", "😀", "e\u{301}", "a/", "é/"][filler];
+            let mut s: String = head.into_iter().map(|i| WIDE[i]).collect();
+            let target = LEN_EDGES[edge].saturating_sub(back);
+            while s.len() < target {
+                s.push_str(fill);
+            }
+            s.extend(tail.into_iter().map(|i| WIDE[i]));
+            s
+        }),
     ]
+}
+
+/// chains over a SMALL alphabet of same-length names, so that the same (base, segment) pair and
+/// different bases of equal length recur within one chain: join must be a function of its two
+/// arguments only, whatever was joined, kept or dropped before
+fn small_chain_strategy() -> impl Strategy<Value = Vec<ChainStep>> {
+    const NAMES: [&str; 8] = ["a", "b", "c", "d", "a/b", "..", "c/d", "../b"];
+    proptest::collection::vec(
+        prop_oneof![
+            8 => (0usize..NAMES.len()).prop_map(|i| ChainStep::Join(NAMES[i].to_string())),
+            2 => Just(ChainStep::Parent),
+            2 => Just(ChainStep::Root),
+            1 => Just(ChainStep::Keep),
+            1 => Just(ChainStep::Forget),
+        ],
+        2..24,
+    )
 }
 
 fn base_chain() -> impl Strategy<Value = Vec<String>> {
@@ -324,6 +358,10 @@ enum ChainStep {
     Join(String),
     Parent,
     Root,
+    /// keep a clone of the current path alive / drop all kept clones (varies what the allocator
+    /// hands out next; no effect on the model)
+    Keep,
+    Forget,
 }
 
 fn chain_strategy() -> impl Strategy<Value = Vec<ChainStep>> {
@@ -340,9 +378,22 @@ fn chain_strategy() -> impl Strategy<Value = Vec<ChainStep>> {
 fn check_chain(r: &Roots, chain: &[ChainStep]) -> Result<usize, String> {
     let res = guarded(|| -> Result<usize, String> {
         let mut cur = r.root.clone();
+        let mut acur = r.aroot.clone();
         let mut model = String::new();
         let mut joins = 0;
+        let mut kept: Vec<VfsPath> = vec![];
         for step in chain {
+            // the async path type walks the same chain
+            match step {
+                ChainStep::Keep | ChainStep::Forget => {}
+                ChainStep::Join(a) => {
+                    if let Ok(p) = acur.join(a) {
+                        acur = p;
+                    }
+                }
+                ChainStep::Parent => acur = acur.parent(),
+                ChainStep::Root => acur = acur.root(),
+            }
             match step {
                 ChainStep::Join(a) => {
                     let trailing = a.len() > 1 && a.ends_with('/');
@@ -374,9 +425,14 @@ fn check_chain(r: &Roots, chain: &[ChainStep]) -> Result<usize, String> {
                     cur = cur.root();
                     model.clear();
                 }
+                ChainStep::Keep => kept.push(cur.clone()),
+                ChainStep::Forget => kept.clear(),
             }
             if cur.as_str() != model || !is_canonical(cur.as_str()) {
                 return Err(format!("chain: path is '{}' but model says '{}'", cur.as_str(), model));
+            }
+            if acur.as_str() != model || acur.filename() != cur.filename() || acur.extension() != cur.extension() || acur.is_root() != cur.is_root() {
+                return Err(format!("chain: async path is '{}' (filename {:?}, extension {:?}) but the sync path is '{}' (filename {:?}, extension {:?})", acur.as_str(), acur.filename(), acur.extension(), cur.as_str(), cur.filename(), cur.extension()));
             }
         }
         Ok(joins)
@@ -387,7 +443,74 @@ fn check_chain(r: &Roots, chain: &[ChainStep]) -> Result<usize, String> {
     }
 }
 
-const RULE: &str = "(1) EXHAUSTIVE: every string that is a concatenation of <=N tokens over {'/','.','..','a','b.c','é'} (N=7 quick, 10 thorough) joined onto 5 bases, for VfsPath and AsyncVfsPath; (2) random: strings over a wider alphabet (spaces, backslash, combining marks, 4-byte scalars, NUL, up to 64 tokens) and arbitrary Strings, composition pairs, and chains of join/parent/root up to length 12; oracle = 15-line reference resolver + canonical-form predicate + accessor laws (parent, filename, extension, root, is_root, equality across two instances); non-trivial = argument with >=1 '..' and >=1 other component, or a multi-byte character adjacent to a separator, or a chain with >=3 joins; distinct by (base,arg) hash";
+const RULE: &str = "(1) EXHAUSTIVE: every string that is a concatenation of <=N tokens over {'/','.','..','a','b.c','é'} (N=7 quick, 10 thorough) joined onto 5 bases, for VfsPath and AsyncVfsPath; (2) random: strings over a wider alphabet (spaces, backslash, combining marks, 4-byte scalars, NUL, up to 64 tokens) and arbitrary Strings, composition pairs, and chains of join/parent/root up to length 12; long arguments (64..700 tokens, and filler runs ending at byte lengths 31..65536 with multi-byte fillers across the edge); chains of up to 24 steps over 8 short names where the same segment recurs on different bases of equal length, with clones kept and dropped in between (join must not depend on the history); joins onto short-lived temporaries (`deep.parent().join(seg)` over 2..8 deep paths with parents of equal byte length, expected values computed beforehand so that the allocator can hand the same address to the next temporary); oracle = 15-line reference resolver + canonical-form predicate + accessor laws (parent, filename, extension, root, is_root, equality across two instances); non-trivial = argument with >=1 '..' and >=1 other component, or a multi-byte character adjacent to a separator, or a chain with >=3 joins; distinct by (base,arg) hash";
+
+/// join on SHORT-LIVED bases: every base is a temporary (`deep.parent()`), dropped right after
+/// the join, so that the next temporary may live at the same address with the same length. The
+/// expected values are computed first; the loop itself does nothing but the calls under test.
+fn check_transient(r: &Roots, deeps: &[String], seg: &str) -> Result<usize, String> {
+    let res = guarded(|| -> Result<usize, String> {
+        let mut held = vec![];
+        let mut expect = vec![];
+        for d in deeps {
+            let p = r.root.join(d).map_err(|e| format!("join('{}') failed: {}", d, e))?;
+            let par = match p.as_str().rfind('/') {
+                Some(i) => p.as_str()[..i].to_string(),
+                None => String::new(),
+            };
+            expect.push((par.clone(), ref_join(&par, seg)));
+            held.push(p);
+        }
+        let mut got: Vec<Option<VfsPath>> = Vec::with_capacity(held.len() * 2);
+        for _round in 0..2 {
+            for p in &held {
+                got.push(p.parent().join(seg).ok());
+            }
+        }
+        let trailing = seg.len() > 1 && seg.ends_with('/');
+        for (i, g) in got.iter().enumerate() {
+            let (par, e) = &expect[i % held.len()];
+            match g {
+                None if trailing => {}
+                None => return Err(format!("join('{}', {:?}) on a temporary base was rejected", par, seg)),
+                Some(g) if g.as_str() != e => {
+                    return Err(format!("join('{}', {:?}) on a temporary base gave '{}', expected '{}' (bases joined before: {:?})", par, seg, g.as_str(), e, expect.iter().map(|x| &x.0).collect::<Vec<_>>()))
+                }
+                Some(g) => {
+                    if !seg.is_empty() && !seg.contains('/') && seg != "." && seg != ".." && g.parent().as_str() != par {
+                        return Err(format!("parent(join('{}', {:?})) is '{}'", par, seg, g.parent().as_str()));
+                    }
+                }
+            }
+        }
+        Ok(got.len())
+    });
+    match res {
+        Ok(r) => r,
+        Err(m) => Err(format!("panicked: {}", m)),
+    }
+}
+
+fn transient_strategy() -> impl Strategy<Value = (Vec<String>, String)> {
+    // short and long names: whether a String and the Arc<str> made from it fall into the same
+    // allocator size class depends on the length, and with it which address the next temporary gets
+    const NAMES: [&str; 12] = ["a", "b", "é", "ü", "b.c", "x.y", "posts", "pages", "2000", "2001", "x.tar.gz", "y.tar.gz"];
+    const SEGS: [&str; 8] = ["f", "index.html", "sub/f.txt", "../g", "./h/../i", "é/日", "..", ""];
+    (
+        proptest::collection::vec(proptest::collection::vec(0usize..NAMES.len(), 1..6).prop_map(|v| v.into_iter().map(|i| NAMES[i]).collect::<Vec<_>>().join("/")), 2..8),
+        prop_oneof![3 => (0usize..SEGS.len()).prop_map(|i| SEGS[i].to_string()), 1 => wide_string()],
+    )
+}
+
+fn chain_json(chain: &[ChainStep]) -> Value {
+    json!({"kind": "chain", "steps": chain.iter().map(|s| match s {
+        ChainStep::Join(a) => format!("join:{}", a),
+        ChainStep::Parent => "<parent>".to_string(),
+        ChainStep::Root => "<root>".to_string(),
+        ChainStep::Keep => "<keep>".to_string(),
+        ChainStep::Forget => "<forget>".to_string(),
+    }).collect::<Vec<_>>()})
+}
 
 pub fn replay(v: &Value) -> CaseResult {
     let r = Roots::new();
@@ -400,6 +523,11 @@ pub fn replay(v: &Value) -> CaseResult {
         }
         return Ok(());
     }
+    if v.get("kind").and_then(|k| k.as_str()) == Some("transient") {
+        let deeps: Vec<String> = v.get("deeps").and_then(|x| x.as_array()).map(|a| a.iter().filter_map(|s| s.as_str().map(String::from)).collect()).unwrap_or_default();
+        let seg = v.get("seg").and_then(|x| x.as_str()).unwrap_or("");
+        return check_transient(&r, &deeps, seg).map(|_| ()).map_err(|m| Failure { message: m, replay: v.clone() });
+    }
     if v.get("kind").and_then(|k| k.as_str()) == Some("chain") {
         let steps: Vec<ChainStep> = v
             .get("steps")
@@ -409,6 +537,8 @@ pub fn replay(v: &Value) -> CaseResult {
                     .map(|s| match s.as_str() {
                         Some("<parent>") => ChainStep::Parent,
                         Some("<root>") => ChainStep::Root,
+                        Some("<keep>") => ChainStep::Keep,
+                        Some("<forget>") => ChainStep::Forget,
                         Some(x) => ChainStep::Join(x.trim_start_matches("join:").to_string()),
                         None => ChainStep::Root,
                     })
@@ -454,6 +584,9 @@ pub fn run(ctx: &RunCtx) -> i32 {
                     if !arg.is_ascii() {
                         st.label("random_non_ascii");
                     }
+                    if arg.len() > 256 {
+                        st.label("random_argument_longer_than_256_bytes");
+                    }
                     st.sample(json!({"base": base_arg, "arg": arg, "result": ref_join(&base_arg, arg)}), nontrivial(arg));
                 }
                 Ok(())
@@ -468,11 +601,7 @@ pub fn run(ctx: &RunCtx) -> i32 {
             let r = Roots::new();
             let joins = check_chain(&r, chain).map_err(|m| Failure {
                 message: m,
-                replay: json!({"kind": "chain", "steps": chain.iter().map(|s| match s {
-                    ChainStep::Join(a) => format!("join:{}", a),
-                    ChainStep::Parent => "<parent>".to_string(),
-                    ChainStep::Root => "<root>".to_string(),
-                }).collect::<Vec<_>>()}),
+                replay: chain_json(chain),
             })?;
             if counting {
                 st.label("chains");
@@ -486,6 +615,63 @@ pub fn run(ctx: &RunCtx) -> i32 {
         stats.merge(s3);
         failure = f3;
     }
+    if failure.is_none() {
+        let n = ctx.tier.pick(150_000, 6_000_000);
+        let (s4, f4) = run_sharded(ctx, "recurring", n, small_chain_strategy, |chain, st, counting| {
+            let r = Roots::new();
+            check_chain(&r, chain).map_err(|m| Failure { message: m, replay: chain_json(chain) })?;
+            if counting {
+                st.label("small_alphabet_chains");
+                // the same segment joined onto two different bases of equal length
+                let mut seen: Vec<(usize, String, String)> = vec![];
+                let mut model = String::new();
+                let mut recur = false;
+                for s in chain {
+                    match s {
+                        ChainStep::Join(a) => {
+                            if seen.iter().any(|(l, b, seg)| *l == model.len() && b != &model && seg == a) {
+                                recur = true;
+                            }
+                            seen.push((model.len(), model.clone(), a.clone()));
+                            model = ref_join(&model, a);
+                        }
+                        ChainStep::Parent => model = model.rfind('/').map(|i| model[..i].to_string()).unwrap_or_default(),
+                        ChainStep::Root => model.clear(),
+                        _ => {}
+                    }
+                }
+                if recur {
+                    st.label("same_segment_on_two_bases_of_equal_length");
+                    st.nontrivial.insert(crate::util::fnv_str(&format!("{:?}", chain)));
+                }
+            }
+            Ok(())
+        });
+        stats.merge(s4);
+        failure = f4;
+    }
+    if failure.is_none() {
+        let n = ctx.tier.pick(150_000, 6_000_000);
+        let (s5, f5) = run_sharded(ctx, "transient", n, transient_strategy, |(deeps, seg), st, counting| {
+            let r = Roots::new();
+            check_transient(&r, deeps, seg).map_err(|m| Failure { message: m, replay: json!({"kind": "transient", "deeps": deeps, "seg": seg}) })?;
+            if counting {
+                st.label("joins_on_temporary_bases");
+                let lens: std::collections::BTreeSet<(usize, &str)> = deeps.iter().map(|d| d.rfind('/').map(|i| (i, &d[..i])).unwrap_or((0, ""))).collect();
+                let mut by_len = std::collections::BTreeMap::new();
+                for (l, _) in &lens {
+                    *by_len.entry(*l).or_insert(0) += 1;
+                }
+                if by_len.values().any(|n| *n >= 2) {
+                    st.label("temporary_bases_of_equal_length_differ");
+                    st.nontrivial.insert(crate::util::fnv_str(&format!("{:?}|{}", deeps, seg)));
+                }
+            }
+            Ok(())
+        });
+        stats.merge(s5);
+        failure = f5;
+    }
     write_evidence(
         ctx,
         "exploration",
@@ -495,5 +681,5 @@ pub fn run(ctx: &RunCtx) -> i32 {
         &["arguments are valid UTF-8 (&str)", "the reference resolver is the 15-line function ref_join in props/c06.rs"],
         failure.is_some() as u32,
     );
-    finish(ctx, &stats, &failure, &[("distinct_nontrivial", 1000), ("rejected_trailing_slash", 100), ("chains_with_3_joins", 100)])
+    finish(ctx, &stats, &failure, &[("distinct_nontrivial", 1000), ("rejected_trailing_slash", 100), ("chains_with_3_joins", 100), ("same_segment_on_two_bases_of_equal_length", 100), ("temporary_bases_of_equal_length_differ", 100), ("random_argument_longer_than_256_bytes", 100)])
 }
